@@ -17,30 +17,56 @@ Oracle = (1) v = 1: real and imaginary part of nsf.D2O_sld equal nsf.neutron_sld
          (5) fasta.Molecule (every entry of every table): .sld / .Dsld equal the direct substitution at
              d = 0 / 1 in the molecule's cell volume, .D2Omatch/100 is a match point in the sense of (4)
              and the same one as nsf.D2O_match(labile_formula), .D2Osld(v, d) equals (1)-(3) and the
-             real part of nsf.D2O_sld(labile_formula, v, d)."""
+             real part of nsf.D2O_sld(labile_formula, v, d).
+History = the same caller-side objects used for several calculations (section "histories" below): every call of
+         a small alphabet (text / Formula of the default table / Formula of a private table with the same data;
+         own density, density=, natural_density=; with and without table=) alone in a fresh process, then every
+         ordered pair of them on the same objects, optionally with the caller's own in-place density update in
+         between; after every call the caller's objects must be what they were, and every call whose meaning the
+         statement fixes is judged by (1)-(4) for the density and table of THAT call."""
+import itertools
 import math
+import os
 
 from ..common import Acc, load_pt, chunks, rotate, MachineryError
+from ..histmc import in_fork
 from ..ref import contrast as R
 
 META = dict(
     level="model_checking", engine="E1",
     technique="bounded-exhaustive grid over compounds x input forms x D2O fraction x volume fraction x "
-              "wavelength on the real calculators, complete sweep of the biomolecule tables, against a "
-              "direct-substitution reference",
+              "wavelength on the real calculators, complete sweep of the biomolecule tables, and all two-call "
+              "histories over a call alphabet (input object x density keyword x table keyword) on reused "
+              "caller-side objects, against a direct-substitution reference",
     rule=("every compound of the list (0, 1, 3, 4, n labile H[1]; with/without ordinary H and D; isotopic "
           "'@d' and natural '@dn' density) in every input form (string with '@', string + density keyword, "
           "Formula object) and every Molecule of the eight fasta tables, crossed with the full grid of D2O "
           "fractions, volume fractions and wavelengths, plus the match point of every compound x wavelength; "
           "a case is non-trivial when the compound has labile hydrogen and d > 0 (a substitution really "
-          "happens) or, for match-point cases, when the compound has labile hydrogen"),
+          "happens) or, for match-point cases, when the compound has labile hydrogen.  HISTORIES: a call = (D2O_sld at "
+          "fixed fractions | D2O_match) x (text | Formula parsed with the default table | Formula parsed with a "
+          "private table T holding the same data) x (own density | density= | natural_density=) x (no table= | "
+          "table=T) x probe; every call alone in its own forked process; every history (first call, optional "
+          "caller update 'formula.density = x', judged second call) on fresh objects; after every call the two "
+          "Formula objects are compared with the caller's model of them (structure with atoms by identity, "
+          "density, name, text); judged are text with or without table=, default-table Formula without table=, "
+          "private-table Formula with table=T (the other two combinations leave the labile hydrogen "
+          "unsubstituted - a documented TODO - and are executed as history only).  Every fasta molecule is judged "
+          "a second time after five keyword-carrying calls on its labile_formula (an object shared by all users "
+          "of the table).  A history is non-trivial when the compound has labile hydrogen"),
     bound=dict(
         quick="9 compounds (one with an energy-dependent absorber) x 3 input forms + all 99 molecules of the 8 fasta tables; D2O fraction "
               "{0, 0.08, 0.25, 0.5, 1} x volume fraction {0, 0.3, 1} x wavelength {1.798, 6} A; match point per "
-              "compound x wavelength re-evaluated at volume fraction {0, 0.3, 1}",
+              "compound x wavelength re-evaluated at volume fraction {0, 0.3, 1}.  Histories: 4 compounds (natural / "
+              "isotopic density, D present, energy-dependent absorber) x [36 first calls x 24 judged second calls at "
+              "the default wavelength (+ the two caller-update variants - 'f.density = x' and 'f = 2*f; f.density = x' - where the second call uses the object's own "
+              "density) + 3 probe-only-differing histories per judged call] = 1224 histories each, 72 calls alone; "
+              "99 molecules x 5 keyword calls + re-judgement",
         thorough="12 compounds (adds nested groups, a hydrogen-free salt) x 3 input "
                  "forms + all 99 molecules; D2O fraction {0, 0.04, 0.08, 0.25, 0.5, 0.75, 1} x volume fraction "
-                 "{0, 0.1, 0.3, 0.5, 0.9, 1} x {wavelength 0.5, 1.798, 6, 12 A, energy 5 meV}; match points as in quick"),
+                 "{0, 0.1, 0.3, 0.5, 0.9, 1} x {wavelength 0.5, 1.798, 6, 12 A, energy 5 meV}; match points as in quick.  "
+                 "Histories: all 14 compounds x [54 first calls x 36 judged second calls + variants] = 2700 histories "
+                 "each, 114 calls alone; molecules as in quick"),
     assumptions=[
         "atom masses and scattering lengths are the library's tables (C06/C07); the expected SLD of the substituted "
         "compound is the library's own neutron_sld on an atom dictionary and a density built by the reference "
@@ -56,8 +82,21 @@ META = dict(
         "parts (the imaginary part is reported as a magnitude and is not linear through a sign change)",
         "compounds without a finite match point (labile hydrogen density equal to that of water, e.g. "
         "H[1]2O@0.9982n) are not in the alphabet; compounds without density (Formula.replace raises, C12) neither",
-        "private tables are not in the alphabet (fasta documents that it ignores them; nsf marks the solvent "
-        "table as TODO)",
+        "private tables appear only with the SAME data as the default table (then every reading of 'which table "
+        "does the solvent / the substitution use' gives the same numbers) and only in the history unit; a default-"
+        "table Formula passed with table=T, and a private-table Formula passed without, are never judged (the "
+        "source marks this TODO; fasta documents that it ignores private tables), but they are executed: like every "
+        "call they must leave the caller's objects alone and must not change what later calls return",
+        "'the caller's object is unaltered' is judged on what a caller can read (structure with atoms by identity, "
+        "density, name, text), not on private attributes; the caller's own update between two calls is "
+        "'formula.density = x', or 'g = 2*formula; g.density = x' and going on with g (n*f copies f with whatever is "
+        "attached to it; doubling every count does not change an SLD at given density); the later call is then judged for x",
+        "a density= / natural_density= keyword given together with a Formula object is the density of that call "
+        "(the docstrings say the keywords are passed to formula()); with text the keyword is only combined with "
+        "text that carries no '@' density",
+        "within one history worker earlier histories have run in the same process: a violation there is named "
+        "after the last two calls although something older may be the cause; the worker stops at its first "
+        "violation",
         "Molecule values are compared with the cell volume the Molecule reports (tables give cell volumes); "
         "empty molecules (gap, masked) have volume 0, density 0 and SLD 0",
     ],
@@ -115,6 +154,9 @@ def compounds(tier):
     return COMPOUNDS if tier == "quick" else COMPOUNDS_THOROUGH
 
 
+_PRIVATE = {}      # pid -> the private table of this process
+
+
 class Env(object):
     def __init__(self):
         self.pt = pt = load_pt()
@@ -124,6 +166,23 @@ class Env(object):
         self.H1, self.H, self.D, self.O = pt.H[1], pt.H, pt.D, pt.O
         self.water = {False: [(self.H, 2), (self.O, 1)], True: [(self.D, 2), (self.O, 1)]}
         self._solvent = {}
+        self._private = None
+
+    def private(self):
+        """A private table with the same data as the default one (made once per worker process; names of
+        tables are unique per process)."""
+        if self._private is None:
+            if os.getpid() not in _PRIVATE:
+                from periodictable.core import PeriodicTable
+                from periodictable import mass, density
+                T = PeriodicTable("c16_private_%d" % os.getpid())
+                mass.init(T)
+                density.init(T)
+                self.nsf.init(T)
+                _PRIVATE.clear()
+                _PRIVATE[os.getpid()] = T
+            self._private = _PRIVATE[os.getpid()]
+        return self._private
 
     def atom(self, key):
         if key == "H[1]":
@@ -143,7 +202,8 @@ class Env(object):
 
 
 def _kw(probe):
-    return {probe[0]: probe[1]}
+    """Keyword of a probe; ('default', None) = neither wavelength nor energy is passed."""
+    return {} if probe[0] == "default" else {probe[0]: probe[1]}
 
 
 def _pair(x):
@@ -214,9 +274,10 @@ class Item(object):
 
 class Ref(object):
     """Reference values for one item at one probe (wavelength / energy)."""
-    def __init__(self, E, item, probe, acc):
+    def __init__(self, E, item, probe, acc, rho=None):
         self.E, self.item, self.probe = E, item, probe
         self.acc = acc
+        self.rho = item.rho if rho is None else rho     # density of the compound as written, for this call
         self._direct = {}
 
     def direct(self, d):
@@ -224,7 +285,7 @@ class Ref(object):
         if d not in self._direct:
             E, it = self.E, self.item
             atoms, _ = R.substitute(it.pairs, E.H1, E.H, E.D, d)
-            rho = R.substituted_density(it.pairs, it.rho, atoms)
+            rho = R.substituted_density(it.pairs, self.rho, atoms)
             self.acc.evaluations += 1
             s = E.nsf.neutron_sld(atoms, density=rho, **_kw(self.probe))
             re, im = _pair(s)
@@ -459,6 +520,461 @@ def check_item_probe(E, acc, item, probe, grid, tier, judge_molecule):
     return True
 
 
+# ---------------------------------------------------------------------------------------------
+# histories: the caller's objects are used for several calculations
+#
+# A call    = (function and fractions, target object, density keyword, table keyword, probe).
+# A history = call 1 on fresh objects, an optional in-place update by the caller, call 2 on the same objects.
+# Targets: S  the compound as text ('@' density, or plain text when a density keyword is given),
+#          Fd a Formula parsed with the default table, Fp a Formula parsed with a private table T that holds the
+#          same data.  Judged are the calls whose meaning the statement fixes: text (with or without table=T),
+#          Fd without table=, Fp with table=T.  Fd with table=T and Fp without table= (the atoms of the formula are
+#          not the H[1] of the table the substitution looks for) are executed as history only.
+HIST = dict(
+    quick=dict(compounds=(1, 2, 7, 8),
+               first=(("sld", 0.3, 0.5), ("match",)), second=(("sld", 1, 0.5), ("match",))),
+    thorough=dict(compounds=None,
+                  first=(("sld", 0.3, 0.5), ("sld", 1, 1), ("match",)),
+                  second=(("sld", 1, 0.5), ("sld", 0.3, 1), ("match",))),
+)
+H_TARGETS = ("S", "Fd", "Fp")
+H_DENSITY = (("own", None), ("density", 2.0), ("natural_density", 0.8))
+H_TABLE = ("none", "T")
+H_JUDGED = (("S", "none"), ("S", "T"), ("Fd", "none"), ("Fp", "T"))
+H_CALLER_DENSITY = 1.7
+
+
+def _skey(structure):
+    """A formula structure with its atoms by identity (the same atom of another table is another atom)."""
+    return tuple((float(c), _skey(x) if isinstance(x, (tuple, list)) else (id(x), str(x))) for c, x in structure)
+
+
+def formula_state(f):
+    """What a caller can read of a Formula: structure (atoms by identity), density, name, text - not private
+    attributes the library may keep on its own objects."""
+    return dict(structure=_skey(f.structure), density=f.density, name=f.name, text=str(f))
+
+
+def state_diff(before, after):
+    return [k for k in ("structure", "density", "name", "text") if before[k] != after[k]]
+
+
+def hist_calls(fns, probes, judged_only):
+    out = []
+    for fn in fns:
+        for target in H_TARGETS:
+            for dk, _ in H_DENSITY:
+                for tk in H_TABLE:
+                    if judged_only and (target, tk) not in H_JUDGED:
+                        continue
+                    for probe in probes:
+                        out.append((fn, target, dk, tk, probe))
+    return out
+
+
+def call_class(call):
+    _, target, dk, tk, _ = call
+    return "%s/%s/%s" % (target, dk, "table" if tk == "T" else "no-table")
+
+
+def kw_class(call):
+    """Which kinds of keyword the call carries (density= and natural_density= are one kind)."""
+    kws = ([] if call[2] == "own" else ["density"]) + (["table"] if call[3] == "T" else [])
+    return "+".join(kws) or "none"
+
+
+def differs_in(c1, c2):
+    names = ("fn", "object", "density", "table", "probe")
+    d = [n for n, a, b in zip(names, c1, c2) if a != b and n in ("object", "density", "table")]
+    return "+".join(d) or "nothing"
+
+
+class HObjects(object):
+    """Fresh caller-side objects of one history and the model of what they are."""
+    def __init__(self, E, comp):
+        self.label, self.text = comp[0], comp[1]
+        self.Fd = E.formula(self.label)
+        self.Fp = E.formula(self.label, table=E.private())
+        self.model = dict(Fd=formula_state(self.Fd), Fp=formula_state(self.Fp))
+
+    def intact(self):
+        """[(object, changed fields)] for every caller-owned object that is no longer what the caller made it."""
+        out = []
+        for name in ("Fd", "Fp"):
+            d = state_diff(self.model[name], formula_state(getattr(self, name)))
+            if d:
+                out.append((name, d))
+        return out
+
+
+class HistCheck(object):
+    """All histories of one compound."""
+    def __init__(self, E, acc, idx, tier):
+        self.E, self.acc, self.idx, self.tier = E, acc, idx, tier
+        self.comp = compounds("thorough")[idx]
+        self.item = Item(E, ("design", idx, "str"), "thorough")
+        self.refs = {}
+        self.written = {}
+
+    # -- model
+    def rho_of(self, objs_own, call):
+        """Density of the compound as written that this call is about."""
+        _, target, dk, _, _ = call
+        if dk == "own":
+            return self.item.rho if target == "S" else objs_own[target]
+        value = dict(H_DENSITY)[dk]
+        return R.written_density(self.item.pairs, "iso" if dk == "density" else "nat", value)
+
+    def ref(self, rho, probe):
+        key = (rho, tuple(probe))
+        if key not in self.refs:
+            self.refs[key] = Ref(self.E, self.item, probe, self.acc, rho=rho)
+        return self.refs[key]
+
+    # -- the real thing
+    def execute(self, objs, call):
+        E = self.E
+        fn, target, dk, tk, probe = call
+        kw = dict(_kw(probe))
+        if target == "S":
+            arg = objs.label if dk == "own" else objs.text
+        else:
+            arg = getattr(objs, target)
+        if dk != "own":
+            kw[dk] = dict(H_DENSITY)[dk]
+        if tk == "T":
+            kw["table"] = E.private()
+        self.acc.evaluations += 1
+        if fn[0] == "sld":
+            return E.nsf.D2O_sld(arg, volume_fraction=fn[1], D2O_fraction=fn[2], **kw)
+        return E.nsf.D2O_match(arg, **kw)
+
+    def code(self, call, objname):
+        fn, target, dk, tk, probe = call
+        arg = ("%r" % (self.comp[0] if dk == "own" else self.comp[1])) if target == "S" else objname[target]
+        kws = []
+        if fn[0] == "sld":
+            kws += ["volume_fraction=%r" % fn[1], "D2O_fraction=%r" % fn[2]]
+        if dk != "own":
+            kws.append("%s=%r" % (dk, dict(H_DENSITY)[dk]))
+        if tk == "T":
+            kws.append("table=T")
+        if probe[0] != "default":
+            kws.append("%s=%r" % (probe[0], probe[1]))
+        return "nsf.%s(%s)" % ("D2O_sld" if fn[0] == "sld" else "D2O_match", ", ".join([arg] + kws))
+
+    def snippet(self, calls, update=None, rho=None):
+        lines = ["import periodictable as pt", "from periodictable import nsf, formula, mass, density",
+                 "from periodictable.core import PeriodicTable",
+                 "T = PeriodicTable('private'); mass.init(T); density.init(T); nsf.init(T)   # same data as the default table",
+                 "Fd = formula(%r); Fp = formula(%r, table=T)" % (self.comp[0], self.comp[0])]
+        names = dict(Fd="Fd", Fp="Fp")
+        for k, c in enumerate(calls):
+            if k == len(calls) - 1 and update:
+                if update == "caller-derives-2x-and-sets-density":
+                    lines.append("%s = 2*%s" % (c[1], c[1]))
+                lines.append("%s.density = %r          # the caller's own update" % (c[1], H_CALLER_DENSITY))
+            lines.append("print(%s)" % self.code(c, names))
+            lines.append("print('  Fd:', Fd, Fd.density, 'has the H[1] of the default table:', pt.H[1] in Fd.atoms, "
+                         "' Fp:', Fp, Fp.density, 'has the H[1] of T:', T.H[1] in Fp.atoms)")
+        if rho is not None:
+            last = calls[-1]
+            d = last[0][2] if last[0][0] == "sld" else 0
+            _, _, _, atoms, rr = self.ref(rho, last[4]).direct(d)
+            ad = "{%s}" % ", ".join("%s: %r" % (self.E.pyname(a), n) for a, n in atoms.items())
+            lines.append("# the compound of the last call with its labile H substituted directly, same cell volume:")
+            lines.append("print(nsf.neutron_sld(%s, density=%r%s))"
+                         % (ad, rr, "" if last[4][0] == "default" else ", %s=%r" % (last[4][0], last[4][1])))
+        return "\n".join(lines) + "\n"
+
+    def verdict(self, call, rho, got):
+        """None if the result is what the statement says for the compound at density rho, else
+        (part, expected, observed)."""
+        E, item = self.E, self.item
+        fn, probe = call[0], call[4]
+        solvent = measure_solvent(E, self.acc, "thorough", probe)
+        if solvent is None:
+            raise MachineryError("solvent cannot be measured")
+        ref = self.ref(rho, probe)
+        (wre, wim, wsc), (hre, him, hsc) = solvent[False], solvent[True]
+        if fn[0] == "sld":
+            _, v, d = fn
+            gre, gim = _pair(got)
+            dre, dim, dsc = ref.direct(d)[:3]
+            ere = v * dre + (1 - v) * (d * hre + (1 - d) * wre)
+            eim = v * dim + (1 - v) * (d * him + (1 - d) * wim)
+            esc = v * dsc + (1 - v) * (d * hsc + (1 - d) * wsc)
+            if not _close_scaled(gre, ere, esc):
+                return ("real", [ere, eim], [gre, gim])
+            if not _close_rel(gim, eim):
+                return ("imag", [ere, eim], [gre, gim])
+            return None
+        h0, s0 = ref.direct(0)[0], ref.direct(0)[2]
+        h1, s1 = ref.direct(1)[0], ref.direct(1)[2]
+        solute_scale, solvent_scale = max(s0, s1), max(wsc, hsc)
+        slope = (h1 - h0) + (wre - hre)
+        if abs(slope) <= 1e-6 * (solute_scale + solvent_scale):
+            self.acc.count("match_degenerate_not_judged")
+            return None
+        dstar, sstar = float(got[0]), float(got[1])
+        solute = dstar * h1 + (1 - dstar) * h0
+        solv = dstar * hre + (1 - dstar) * wre
+        sc = (abs(dstar) + abs(1 - dstar)) * (solute_scale + solvent_scale)
+        if not _close_scaled(solute, solv, sc):
+            return ("match-fraction", "solute and solvent real SLD equal at the reported fraction",
+                    dict(fraction=dstar, solute=solute, solvent=solv))
+        if not _close_scaled(sstar, solute, sc):
+            return ("match-sld", solute, sstar)
+        return None
+
+    def judged(self, call):
+        return (call[1], call[3]) in H_JUDGED
+
+    def run_call(self, objs, own, call, case, calls_so_far, update, signature):
+        """Execute one call of a history; judge it if its meaning is fixed; the caller's objects must be intact.
+        Returns False after a violation."""
+        acc = self.acc
+        acc.transitions += 1
+        fname = "D2O_sld" if call[0][0] == "sld" else "D2O_match"
+        rho = self.rho_of(own, call)
+        try:
+            got = self.execute(objs, call)
+            err = None
+        except Exception as e:
+            got, err = None, "%s: %s" % (type(e).__name__, e)
+        changed = objs.intact()
+        if changed:
+            name, fields = changed[0]
+            which = "passed" if name == call[1] else "other"
+            acc.violation("argument-altered:%s-formula-%s:keywords=%s" % (which, "+".join(fields), kw_class(call)),
+                          case, expected=repr(dict((k, v) for k, v in objs.model[name].items() if k != "structure")),
+                          observed=repr(dict((k, v) for k, v in formula_state(getattr(objs, name)).items()
+                                             if k != "structure")),
+                          standalone=self.snippet(calls_so_far + [call], update),
+                          detail="changed: %s of %s (structure = atoms by identity: an atom of another table is "
+                                 "another atom)" % (", ".join(fields), name))
+            return False
+        if not self.judged(call):
+            acc.outcome("history-only-call:%s" % call_class(call))
+            return True
+        if err is not None:
+            acc.violation(signature, dict(case, part="raises"), expected="a result", observed=err,
+                          standalone=self.snippet(calls_so_far + [call], update, rho))
+            return False
+        bad = self.verdict(call, rho, got)
+        if bad is not None:
+            part, expected, observed = bad
+            acc.violation(signature, dict(case, part=part), expected=expected, observed=observed,
+                          standalone=self.snippet(calls_so_far + [call], update, rho))
+            return False
+        return True
+
+    def case(self, first, update, second):
+        c = dict(unit="history", compound=self.idx, label=self.comp[0])
+        if first is not None:
+            c["first"] = _call_json(first)
+        if update:
+            c["update"] = update
+        c["second"] = _call_json(second)
+        return c
+
+    def single(self, call):
+        """The call alone on fresh objects."""
+        objs = HObjects(self.E, self.comp)
+        own = dict(Fd=self.item.rho, Fp=self.item.rho)
+        self.acc.states += 1
+        if self.judged(call) and self.item.n_labile > 0:
+            self.acc.nontrivial += 1
+        return self.run_call(objs, own, call, self.case(None, None, call), [], None,
+                             "single-call:%s" % call_class(call))
+
+    def history(self, first, update, second):
+        E, acc = self.E, self.acc
+        objs = HObjects(E, self.comp)
+        own = dict(Fd=self.item.rho, Fp=self.item.rho)
+        acc.states += 1
+        if self.item.n_labile > 0:
+            acc.nontrivial += 1
+        case = self.case(first, update, second)
+        if not self.run_call(objs, own, first, case, [], None, "history:first-call-differs-from-the-call-alone"):
+            return False
+        if update:
+            target = second[1]
+            if update == "caller-derives-2x-and-sets-density":
+                # the caller goes on with n*f (made by copying f, private attributes included); the SLD of a
+                # compound at a given density does not change when every count is doubled
+                g = 2 * getattr(objs, target)
+                if g.atoms != dict((a, 2 * n) for a, n in getattr(objs, target).atoms.items()):
+                    acc.count("histories_update_not_applicable_not_judged")     # formula arithmetic is C02's business
+                    return True
+                setattr(objs, target, g)
+            getattr(objs, target).density = H_CALLER_DENSITY        # the caller's own, legitimate, update
+            own[target] = H_CALLER_DENSITY
+            objs.model[target] = formula_state(getattr(objs, target))
+        sig = "history:result-depends-on-earlier-call:differs-in=%s%s" % (
+            differs_in(first, second), ":after-%s" % update if update else "")
+        ok = self.run_call(objs, own, second, case, [first], update, sig)
+        if ok:
+            acc.outcome("history:%s-after-%s:ok" % (call_class(second), call_class(first)))
+        return ok
+
+
+def _call_json(call):
+    fn, target, dk, tk, probe = call
+    return [list(fn), target, dk, tk, list(probe)]
+
+
+def _call_from_json(j):
+    return (tuple(j[0]), j[1], j[2], j[3], tuple(j[4]))
+
+
+P0, P1 = ("default", None), ("wavelength", 6)
+
+
+def hist_plan(tier):
+    """(compound indices, calls executed alone, histories).  Histories: every first call x every judged second call
+    at the default wavelength (with and without the caller's own density update where the second call uses the
+    object's own density), plus, for every judged call, the histories that differ in the probe only."""
+    h = HIST[tier]
+    idxs = h["compounds"]
+    if idxs is None:
+        idxs = [i for i in range(len(compounds("thorough")))]
+    firsts = hist_calls(h["first"], (P0,), judged_only=False)
+    seconds = hist_calls(h["second"], (P0,), judged_only=True)
+    hist = []
+    for a in firsts:
+        for b in seconds:
+            hist.append((a, None, b))
+            if b[1] in ("Fd", "Fp") and b[2] == "own":
+                hist.append((a, "caller-sets-density", b))
+                hist.append((a, "caller-derives-2x-and-sets-density", b))
+    for b0 in seconds:
+        b1 = b0[:4] + (P1,)
+        hist += [(b0, None, b1), (b1, None, b0), (b1, None, b1)]
+    alone = sorted(set(firsts) | set(seconds) | set(b[:4] + (P1,) for b in seconds), key=repr)
+    return list(idxs), alone, hist
+
+
+def _alone_shard(args):
+    """Every call of the alphabet ALONE: each in its own fork of this worker, which has not calculated anything,
+    so that no earlier call can have left anything behind.  Returns (compound, calls that are wrong alone, Acc)."""
+    idx, tier = args
+    _, alone, _ = hist_plan(tier)
+    acc = Acc()
+    bad = []
+    for call in alone:
+        def one(call=call):
+            a = Acc()
+            return HistCheck(Env(), a, idx, tier).single(call), a
+        ok, a = in_fork(one)
+        acc.merge(a)
+        if not ok:
+            bad.append(call)
+    acc.traces = acc.transitions
+    return idx, bad, acc
+
+
+def _hist_shard(args):
+    """A part of the histories of one compound.  Calls that are wrong alone are not used.  After the first
+    violation the worker stops: whatever was left behind may be anywhere in this process."""
+    idx, tier, part, nparts, alone_bad = args
+    E = Env()
+    acc = Acc()
+    hc = HistCheck(E, acc, idx, tier)
+    _, alone, hist = hist_plan(tier)
+    bad = set(alone_bad)
+    for first, update, second in hist[part::nparts]:
+        if first in bad or second in bad:
+            acc.count("histories_skipped_call_wrong_alone")
+            continue
+        if not hc.history(first, update, second):
+            break
+    if part == 0:
+        acc.sample(dict(unit="history", label=hc.comp[0], calls=len(alone), histories=len(hist)))
+    acc.traces = acc.transitions
+    return acc
+
+
+def argument_intact(E, acc, item, before, fname, kwclass, case, code=None):
+    """The Formula object handed to the library (item.arg) is what it was."""
+    fields = state_diff(before, formula_state(item.arg))
+    if not fields:
+        return True
+    lines = ["import periodictable as pt", "from periodictable import nsf, fasta, formula, mass, density",
+             "from periodictable.core import PeriodicTable",
+             "T = PeriodicTable('private'); mass.init(T); density.init(T); nsf.init(T)   # same data as the default table",
+             "f = %s" % item.code, "print(f, f.density, pt.H[1] in f.atoms)"]
+    lines += code or ["for d in (0, 0.5, 1): nsf.D2O_sld(f, volume_fraction=0.3, D2O_fraction=d)", "nsf.D2O_match(f)"]
+    lines.append("print(f, f.density, pt.H[1] in f.atoms)")
+    acc.violation("argument-altered:passed-formula-%s:keywords=%s" % ("+".join(fields), kwclass), case,
+                  expected=repr(dict((k, v) for k, v in before.items() if k != "structure")),
+                  observed=repr(dict((k, v) for k, v in formula_state(item.arg).items() if k != "structure")),
+                  standalone="\n".join(lines) + "\n",
+                  detail="changed: %s (structure = atoms by identity: an atom of another table is another atom)"
+                         % ", ".join(fields))
+    return False
+
+
+class _Renamed(object):
+    """An Acc whose violation signatures get a prefix (the cause is the history that went before)."""
+    def __init__(self, acc, prefix):
+        object.__setattr__(self, "_acc", acc)
+        object.__setattr__(self, "_prefix", prefix)
+
+    def violation(self, signature, *a, **k):
+        return self._acc.violation(self._prefix + signature, *a, **k)
+
+    def __getattr__(self, name):
+        return getattr(self._acc, name)
+
+    def __setattr__(self, name, value):
+        setattr(self._acc, name, value)
+
+
+# calls with keywords on the labile formula of a table molecule (history only), then the molecule is judged again
+MOLECULE_EVENTS = (
+    ("D2O_match", dict(), ("table",)),
+    ("D2O_sld", dict(volume_fraction=0.5, D2O_fraction=0.5), ("table",)),
+    ("D2O_sld", dict(volume_fraction=1, D2O_fraction=0.5, density=1.1), ()),
+    ("D2O_match", dict(natural_density=0.9), ()),
+    ("D2O_sld", dict(volume_fraction=0.3, D2O_fraction=1, natural_density=1.3), ("table",)),
+)
+MOLECULE_REGRID = dict(d=(0, 0.5, 1), v=(1, 0.3), probes=(("wavelength", 1.798),))
+
+
+def molecule_history(E, acc, item, tier):
+    """The labile formula of a table molecule is an object shared by everybody who uses the table: after calls
+    that carry table= / density= / natural_density= keywords it must be what it was, and the molecule, its
+    labile formula and nsf must still agree on match point and SLDs."""
+    f = item.arg
+    T = E.private()
+    for fname, kw, extra in MOLECULE_EVENTS:
+        before = formula_state(f)
+        kwargs = dict(kw)
+        if "table" in extra:
+            kwargs["table"] = T
+        acc.evaluations += 1
+        acc.transitions += 1
+        try:
+            getattr(E.nsf, fname)(f, **kwargs)
+        except Exception:
+            acc.count("molecule_history_call_raised_not_judged")
+        kwclass = "+".join((["density"] if "density" in kw or "natural_density" in kw else []) + list(extra)) or "none"
+        call = "nsf.%s(f, %s)" % (fname, ", ".join(["%s=%r" % kv for kv in sorted(kw.items())]
+                                                   + ["table=T" for _ in extra]))
+        if not argument_intact(E, acc, item, before, fname, kwclass,
+                               dict(unit="molecule-history", item=list(item.desc), event=[fname, kwclass]), [call]):
+            return False
+    acc.states += 1
+    if item.n_labile > 0:
+        acc.nontrivial += 1
+    ok = check_item_probe(E, _Renamed(acc, "after-keyword-calls-on-labile_formula:"), item, ("wavelength", 1.798),
+                          MOLECULE_REGRID, tier, True)
+    if ok:
+        acc.outcome("molecule:after-keyword-calls:ok")
+    return ok
+
+
 def items_for(tier):
     E = Env()
     out = []
@@ -482,16 +998,26 @@ def _shard(args):
                                            item.dclass, "labile=%g" % item.n_labile
                                            if item.n_labile in (0, 1, 3) else "labile=n"))
         ok = True
+        before = formula_state(item.arg) if item.form in ("obj", "molecule") else None
         for probe in grid["probes"]:
             # Molecule attributes are defined at the default wavelength only: judge them at 1.798
             jm = item.molecule is not None and tuple(probe) == ("wavelength", 1.798)
             ok = check_item_probe(E, acc, item, probe, grid, tier, jm)
             if not ok:
                 break
+        if ok and before is not None:
+            ok = argument_intact(E, acc, item, before, "D2O_sld/D2O_match", "none", dict(item=list(desc), grid=True))
+        if ok and item.molecule is not None:
+            ok = molecule_history(E, acc, item, tier)
         if ok and len(acc.samples) < 2:
             acc.sample(dict(item=list(desc), labile=item.n_labile, density=item.rho))
     acc.traces = acc.transitions
     return acc
+
+
+def _dispatch(job):
+    kind, args = job
+    return _hist_shard(args) if kind == "hist" else _alone_shard(args) if kind == "alone" else _shard(args)
 
 
 def run(ctx):
@@ -503,7 +1029,18 @@ def run(ctx):
     items = rotate(items, ctx.seed)
     nshards = 16 if ctx.quick else 48
     jobs = [(part, tier, i == 0) for i, part in enumerate(chunks(items, nshards))]
-    ctx.pmap(_shard, jobs)
+    idxs, alone, hist = hist_plan(tier)
+    res = ctx.pmap(_dispatch, [("alone", (idx, tier)) for idx in idxs] + [("grid", j) for j in jobs])
+    bad = {}
+    for r in res:
+        if isinstance(r, tuple):
+            bad[r[0]] = r[1]
+            ctx.acc.merge(r[2])
+    nparts = 5 if ctx.quick else 4
+    ctx.pmap(_dispatch, [("hist", (idx, tier, k, nparts, bad[idx])) for k in range(nparts) for idx in idxs])
+    ctx.acc.info["history_compounds"] = len(idxs)
+    ctx.acc.info["history_calls_alone"] = len(alone)
+    ctx.acc.info["histories_per_compound"] = len(hist)
     ctx.acc.traces = ctx.acc.transitions
     # every worker measured the same two solvent densities (merged by max): report them once
     g = GRID[tier]
@@ -512,7 +1049,27 @@ def run(ctx):
 
 def replay(ctx, case, signature=None):
     E = Env()
+    if case.get("unit") == "history":
+        hc = HistCheck(E, ctx.acc, case["compound"], "thorough")
+        second = _call_from_json(case["second"])
+        if case.get("first") is None:
+            hc.single(second)
+        else:
+            hc.history(_call_from_json(case["first"]), case.get("update"), second)
+        return
+    if case.get("unit") == "molecule-history":
+        item = Item(E, tuple(case["item"]), "thorough")
+        molecule_history(E, ctx.acc, item, "thorough")
+        return
     desc = tuple(case["item"])
+    if case.get("grid"):
+        item = Item(E, desc, "thorough")
+        before = formula_state(item.arg)
+        for probe in GRID["quick"]["probes"]:
+            if not check_item_probe(E, ctx.acc, item, probe, GRID["quick"], "thorough", False):
+                return
+        argument_intact(E, ctx.acc, item, before, "D2O_sld/D2O_match", "none", dict(item=list(desc), grid=True))
+        return
     probe = tuple(case["probe"])
     # replay in the tier whose compound list contains the item (thorough is a superset)
     tier = "thorough"
